@@ -44,8 +44,10 @@ fn strings(max_len: usize) -> Vec<String> {
 fn lenient_doc(index_a: &str, index_b: &str, name: &str) -> String {
     let esc = |s: &str| s.replace('&', "&amp;").replace('<', "&lt;");
     format!(
-        "<?xml version=\"1.0\" encoding=\"utf-8\"?><AUTOSAR {}><AR-PACKAGES><AR-PACKAGE><SHORT-NAME>p</SHORT-NAME><ELEMENTS><ECUC-MODULE-CONFIGURATION-VALUES><SHORT-NAME>m</SHORT-NAME><CONTAINERS><ECUC-CONTAINER-VALUE><SHORT-NAME>k1</SHORT-NAME><INDEX>{}</INDEX></ECUC-CONTAINER-VALUE><ECUC-CONTAINER-VALUE><SHORT-NAME>k0</SHORT-NAME><INDEX>{}</INDEX></ECUC-CONTAINER-VALUE><ECUC-CONTAINER-VALUE><SHORT-NAME>{}</SHORT-NAME></ECUC-CONTAINER-VALUE></CONTAINERS></ECUC-MODULE-CONFIGURATION-VALUES></ELEMENTS></AR-PACKAGE></AR-PACKAGES></AUTOSAR>",
+        "<?xml version=\"1.0\" encoding=\"utf-8\"?><AUTOSAR {}><AR-PACKAGES><AR-PACKAGE UUID=\"{}\" T=\"{}\"><SHORT-NAME>p</SHORT-NAME><ELEMENTS><ECUC-MODULE-CONFIGURATION-VALUES><SHORT-NAME>m</SHORT-NAME><CONTAINERS><ECUC-CONTAINER-VALUE><SHORT-NAME>k1</SHORT-NAME><INDEX>{}</INDEX></ECUC-CONTAINER-VALUE><ECUC-CONTAINER-VALUE><SHORT-NAME>k0</SHORT-NAME><INDEX>{}</INDEX></ECUC-CONTAINER-VALUE><ECUC-CONTAINER-VALUE><SHORT-NAME>{}</SHORT-NAME></ECUC-CONTAINER-VALUE></CONTAINERS></ECUC-MODULE-CONFIGURATION-VALUES></ELEMENTS></AR-PACKAGE></AR-PACKAGES></AUTOSAR>",
         crate::common::tree::header_attrs(AutosarVersion::Autosar_00050),
+        esc(name),
+        esc(index_a),
         esc(index_a),
         esc(index_b),
         esc(name)
